@@ -46,4 +46,5 @@ def tasks(tier, seed=0):
             out.append(task(M, "ob_composite", f"composite.{m}/rep", ["C12"] + (["C14"] if m == "branch" else []) + (["C15"] if m == "split" else []), method=m, tier=tier))
     for m in composite.FAULT_METHODS:
         out.append(task(M, "ob_composite", f"composite.{m}/rep-after-a-child-gave-up", ["C17", "C12"], method=m, tier=tier))
+    out.append(task("vf.contracts.canaries", "ob_canaries", "harness.canaries/wrong-methods-are-noticed", ["C03", "C11", "C12", "C13", "C15"], tier=tier))
     return out + _rtc.rtc_tasks("C12", tier, seed)
